@@ -865,7 +865,7 @@ where
                             as u64,
                     ))
                     .await;
-                backoff *= 2;
+                backoff = cmp::min(Duration::from_millis(1000), backoff * 2);
                 // after printing this line, redo-log will recurse into t,
                 // whether it's us building it, or someone else.
                 logs::meta(
